@@ -1277,7 +1277,13 @@ func (c Clause) String() string {
 		premises.WriteString(p.String())
 	}
 	if c.Transform == nil {
-		return fmt.Sprintf("%s :- %s.", headStr, premises.String())
+		body := premises.String()
+		if endsWithNameConstant(c.Premises) {
+			// "." is a name character, so a trailing name constant must be
+			// separated from the period that ends the clause.
+			body += " "
+		}
+		return fmt.Sprintf("%s :- %s.", headStr, body)
 	}
 	var transforms strings.Builder
 	for t := c.Transform; t != nil; t = t.Next {
@@ -1285,6 +1291,26 @@ func (c Clause) String() string {
 		transforms.WriteString(t.String())
 	}
 	return fmt.Sprintf("%s :- %s%s.", headStr, premises.String(), transforms.String())
+}
+
+// endsWithNameConstant returns true if the printed form of the premises ends
+// with a name constant, which is the case for (in)equalities whose right-hand
+// side is a name.
+func endsWithNameConstant(premises []Term) bool {
+	if len(premises) == 0 {
+		return false
+	}
+	var right BaseTerm
+	switch p := premises[len(premises)-1].(type) {
+	case Eq:
+		right = p.Right
+	case Ineq:
+		right = p.Right
+	default:
+		return false
+	}
+	c, ok := right.(Constant)
+	return ok && c.Type == NameType
 }
 
 func (t Transform) String() string {
